@@ -95,6 +95,9 @@ type c16Scenario struct {
 	ID   int      `json:"id"`
 	Msgs []c16Msg `json:"msgs"`
 	Size []int    `json:"size"` // payload size per message index (data/quit)
+	// Pipelined: data messages are sent back to back without waiting for their echo (the
+	// service then reads the next chunk while its previous answer is still on its way out)
+	Pipelined bool `json:"pipelined,omitempty"`
 }
 
 type c16Result struct {
@@ -224,6 +227,9 @@ func c16Run(rig *agentRig, sc c16Scenario) c16Result {
 			}
 			payload := chunkBytes(m.K, m.N, size, m.M == "quit")
 			frameWrite(cl, agent.TypeReadWriteTCP, agent.ReadWriteTCP{Laddr: la, Raddr: ra, Payload: payload})
+			if sc.Pipelined && m.M == "data" {
+				continue
+			}
 			// lock-step: give the echo time to come back (it will not if the chunk is dropped)
 			mu.Lock()
 			have := len(echoed[m.K])
@@ -248,6 +254,25 @@ func c16Run(rig *agentRig, sc c16Scenario) c16Result {
 		}
 	}
 	time.Sleep(60 * time.Millisecond)
+	if sc.Pipelined {
+		// wait until nothing more comes back
+		total := func() int {
+			mu.Lock()
+			defer mu.Unlock()
+			n := 0
+			for _, b := range echoed {
+				n += len(b)
+			}
+			return n
+		}
+		last, quiet := total(), time.Now()
+		for time.Since(quiet) < 150*time.Millisecond {
+			time.Sleep(5 * time.Millisecond)
+			if n := total(); n != last {
+				last, quiet = n, time.Now()
+			}
+		}
+	}
 	// what did the services read? the current generation = the last record for the tuple
 	for k := 1; k <= 9; k++ {
 		_, ra := c16Addr(sc.ID, k)
